@@ -61,6 +61,13 @@ var exprAtoms = []string{
 	"for a in b", "for a, b in c", "if", "=>", "...", "\"x\"", "\"${", "<<E\n", "E\n", "+", "!", "-",
 }
 
+// call alphabet: the pieces of a function call's argument list, so that short strings
+// reach every way a call can end (no argument, one, several, trailing comma, expansion,
+// newline before the closing parenthesis, missing parenthesis, nested call).
+var callAtoms = []string{
+	"f(", ")", "a", ",", "...", " ", "\n", "a,", "[a]", "1",
+}
+
 func concat(a, b []string) []string {
 	out := make([]string, 0, len(a)+len(b))
 	out = append(out, a...)
